@@ -288,6 +288,37 @@ pub fn dispatch_mut(u: &mut Unimock, m: M, x: u8, y: u8) -> u64 {
     }
 }
 
+/// Call the registered real function of `m` directly (the twin side of C16).
+pub fn direct_real(u: &Unimock, m: M, x: u8, y: u8) -> u64 {
+    match m {
+        M::A0 => real_a0(u, x),
+        M::B1 => real_b1(u, x),
+        M::E0 => real_e0(y, u, x),
+        M::S0 => real_s0(u, x),
+        M::S2 => real_s2(u, x),
+        M::Af => crate::exec::block_on(real_af(u, x)),
+        M::At => crate::exec::block_on(real_at(u, x)),
+        other => panic!("{other:?} has no real function taking &Unimock"),
+    }
+}
+
+pub fn direct_real_mut(u: &mut Unimock, m: M, x: u8, _y: u8) -> u64 {
+    match m {
+        M::Gm => real_gm(u, x),
+        other => panic!("{other:?} has no real function taking &mut Unimock"),
+    }
+}
+
+/// create (not poll) the future of an async corpus method
+pub fn async_call<'a>(u: &'a Unimock, m: M, x: u8) -> crate::exec::BoxFut<'a> {
+    match m {
+        M::Af => Box::pin(u.af(x)),
+        M::Ag => Box::pin(u.ag(x)),
+        M::At => u.at(x),
+        other => panic!("{other:?} is not async"),
+    }
+}
+
 pub fn ref_port(u: &Unimock) -> impl FnMut(PortReq) -> PortResp + '_ {
     move |req| match req {
         PortReq::Snap => PortResp::Snap(Some(take_snap(u))),
